@@ -78,7 +78,7 @@ def execute(mod, case):
 
 
 def write_replay(prop, sig, case, detail, seed):
-    d = os.path.join(ROOT, "replays", prop)
+    d = os.path.join(os.environ.get("LOV_REPLAY_DIR") or os.path.join(ROOT, "replays"), prop)
     os.makedirs(d, exist_ok=True)
     name = hashlib.sha1((sig + canon(case)).encode()).hexdigest()[:16] + ".json"
     path = os.path.join(d, name)
@@ -258,7 +258,9 @@ def replay_corpus(mod, findings, stats, out_violations, known_lines):
 
 
 def evidence_path(prop):
-    return os.path.join(ROOT, "evidence", "%s.json" % prop)
+    # mutation runs (tools/mutcheck.sh) must not overwrite the committed evidence
+    d = os.environ.get("LOV_EVIDENCE_DIR") or os.path.join(ROOT, "evidence")
+    return os.path.join(d, "%s.json" % prop)
 
 
 def write_evidence(mod, tier, seed, merged, wall, violations, findings_info, extra):
